@@ -13,6 +13,7 @@ import (
 	"verif/sim/choice"
 	"verif/sim/core"
 	"verif/sim/ref"
+	"verif/sim/sched"
 	"verif/sim/sw"
 )
 
@@ -168,6 +169,50 @@ func c14Explore(src *choice.Src) *core.Result {
 	}
 	res.Logf("C14 run: height %d, %d modules (%d pre-logged, %d filler), %d clients, %d tasks, switch %d/%d", height, len(mods), pre, filler, nclients, totalTasks, r.s.SwitchNum, r.s.SwitchDen)
 	r.finish(true)
+	switches, schedule := r.s.Switches, r.scheduleSample(25)
+
+	// second generation: in half of the runs the crowd's processes are gone and, on the cache and stored
+	// head they left behind, a new process per machine repeats every lookup from two goroutines. The
+	// same oracles apply to it (it is one more client that happens to start late).
+	if res.Violation == nil && src.Bool(1, 2) {
+		steps1, digest1 := res.Steps, res.Digest
+		r.s = sched.New(src)
+		w.StepFn = r.s.Steps
+		r.s.SwitchNum = 1
+		r.s.SwitchDen = []int{1, 2, 4, 16}[src.Intn(4)]
+		seenReq := map[string]bool{}
+		var all []lookupReq
+		for _, spec := range r.specs {
+			for _, t := range spec.Tasks {
+				for _, q := range t {
+					if !seenReq[q.String()] {
+						seenReq[q.String()] = true
+						all = append(all, q)
+					}
+				}
+			}
+		}
+		for mi := range w.Machines {
+			spec := clientSpec{Machine: mi, Height: height, NoSumDB: c14NoSumLists[src.Weighted(5, 2, 2, 2, 1, 1, 1, 1)]}
+			a := append([]lookupReq(nil), all...)
+			b := make([]lookupReq, len(all))
+			for i, j := range src.Perm(len(all)) {
+				b[i] = all[j]
+			}
+			spec.Tasks = [][]lookupReq{a, b}
+			totalTasks += 2
+			ci := w.NewClient(w.Machines[mi], r.s.NewGroup(), height, nil, 0)
+			r.clients = append(r.clients, ci)
+			r.specs = append(r.specs, spec)
+			r.startClient(spec, ci, "")
+		}
+		res.Logf("C14 second generation: %d new processes repeat %d lookups on the surviving cache and stored head", len(w.Machines), len(all))
+		r.finish(true)
+		res.Steps += steps1
+		res.Digest = choice.Mix(digest1, res.Digest)
+		switches += r.s.Switches
+		res.Probes["second-generation-run"]++
+	}
 
 	// ---- oracles over the finished run ----
 	// ground truth: the final server log, rebuilt with the reference implementation
@@ -309,8 +354,8 @@ func c14Explore(src *choice.Src) *core.Result {
 	}
 	// probes
 	c14Probes(r, res)
-	res.Sig = choice.Mix(r.s.Digest, choice.MixString(fmt.Sprint(height, len(mods), nclients)))
-	res.Trivial = r.s.Switches == 0 || totalTasks < 2
+	res.Sig = choice.Mix(res.Digest, choice.MixString(fmt.Sprint(height, len(mods), nclients)))
+	res.Trivial = switches == 0 || totalTasks < 2
 	var keys []string
 	for _, spec := range r.specs {
 		for _, t := range spec.Tasks {
@@ -321,7 +366,7 @@ func c14Explore(src *choice.Src) *core.Result {
 	}
 	sort.Strings(keys)
 	res.Sample = map[string]interface{}{"tile_height": height, "clients": nclients, "goroutines": totalTasks, "lookups": keys, "server_records": len(recs),
-		"scheduler_steps": r.s.Steps(), "context_switches": r.s.Switches, "schedule_head": r.scheduleSample(25)}
+		"scheduler_steps": res.Steps, "context_switches": switches, "schedule_head": schedule}
 	return res
 }
 
@@ -370,11 +415,11 @@ func init() {
 		Entries:   []core.Entry{{Name: "explore", Run: c14Explore}},
 		Explore:   []string{"explore"},
 		NeedsRace: true,
-		Rule: "explore: seeded honest world (real Server+TestServer whose log grows on demand), 1-3 clients x 2-4 goroutines on 1-2 machines, 1-3 lookups each over 2-7 colliding modules (+/go.mod, upper-case, unknown, private), tile height 1-8, GONOSUMDB lists, benign cache behaviours; every scheduling decision from the tape. " +
+		Rule: "explore: seeded honest world (real Server+TestServer whose log grows on demand), 1-3 clients x 2-4 goroutines on 1-2 machines, 1-3 lookups each over 2-7 colliding modules (+/go.mod, upper-case, unknown, private), tile height 1-8, GONOSUMDB lists, benign cache behaviours; every scheduling decision from the tape; in half of the runs a second generation follows (the crowd's processes are gone, a new process per machine repeats every lookup from two goroutines on the surviving cache and stored head) under the same oracles. " +
 			"Distinct = distinct (task, hook-label) schedule digest; non-trivial = at least two lookup goroutines and at least one context switch.",
 		Real:        []string{"sumdb.Client incl. parCache, mergeLatest/mergeLatestMem/checkTrees, tileReader.ReadTiles goroutines", "tlog tile/hash/proof code", "note.Open/Sign", "module.Escape*/MatchPrefixPatterns", "sumdb.Server.ServeHTTP", "sumdb.TestServer"},
 		Stub:        []string{"ClientOps: network (in-memory HTTP recorder), cache, config compare-and-swap register, Log/SecurityError sinks", "goroutine scheduler (cooperative, tape-driven)", "gosum callback"},
 		Assumptions: []string{"interleavings are explored at hook granularity (every Mutex.Lock, Once, spawn/wait and ClientOps call); unsynchronised accesses between hooks are covered by the race detector, not by schedule enumeration", "the world mutex adds happens-before edges between tasks at ClientOps calls; it can hide a race in some interleavings, never invent one"},
 	})
-	core.ExpectProbes("C14", "switch-inside-install-window", "WriteConfig-conflict", "parCache-lock-step", "client-with-only-private-lookups")
+	core.ExpectProbes("C14", "switch-inside-install-window", "WriteConfig-conflict", "parCache-lock-step", "client-with-only-private-lookups", "second-generation-run")
 }
